@@ -66,6 +66,18 @@ theorem step_inv (hkey : KeyDetermines proj f) (o : O) (g : G K' V) (file : F) (
   simp only [step, hp, if_true]
   exact ⟨by rw [h.1]; rfl, rfl, h.2⟩
 
+/-- `check_file_s` = `check_file` as far as output and invariant go, and it leaves `sys.stdout` as it found it — also when
+    `check_file` raised -/
+theorem checkFileS_inv (hkey : KeyDetermines proj f) (o : O) (g : G K' V) (file : F) (hg : Inv proj f g) :
+    (checkFileS proj f unpackDeb checkRegular checkDeb o g file).2 = .ok (out f unpackDeb checkRegular checkDeb o file)
+    ∧ Inv proj f (checkFileS proj f unpackDeb checkRegular checkDeb o g file).1 := by
+  have hg1 : Inv proj f ({ g with captured := true } : G K' V) := hg
+  have hs := step_inv unpackDeb checkRegular checkDeb hkey o _ file hg1
+  exact ⟨hs.1, hs.2⟩
+
+theorem checkFileS_restores_stdout (o : O) (g : G K' V) (file : F) :
+    (checkFileS proj f unpackDeb checkRegular checkDeb o g file).1.captured = g.captured := rfl
+
 theorem seqRun_inv (hkey : KeyDetermines proj f) (o : O) :
     ∀ (files : List F) (g : G K' V), Inv proj f g →
       (seqRun proj f unpackDeb checkRegular checkDeb o g files).2
@@ -125,7 +137,7 @@ theorem parExec_find (hkey : KeyDetermines proj f) (o : O) (paths : List F) :
       exact ih W hW i p hp hi'
     | some q =>
       simp only
-      have hs := step_inv unpackDeb checkRegular checkDeb hkey o (W w) q (hW w)
+      have hs := checkFileS_inv unpackDeb checkRegular checkDeb hkey o (W w) q (hW w)
       by_cases hji : j = i
       · subst hji
         rw [hp] at hj; cases hj
